@@ -12,6 +12,11 @@
 //      exposed at a Detailed callback and the returned one is legal; cells that detailed placement
 //      does not optimise (placed height != row height) and fixed cells keep x / y / orientation;
 //      placeDetailed neither throws nor aborts when legalize alone succeeded.
+//      One e<k> case in three (and one d<k> case in four) runs placeDetailed / the passes on an object with a PAST
+//      (common/past.hpp; family: state kept inside the Circuit between calls that a setter forgets to refresh, e.g. a
+//      memoised computeRows() not invalidated by setupRows): built in a perturbed state, observers called, brought to the
+//      case's public state through only the needed setters.  legalize alone (the reference) stays on a fresh object.  Same
+//      oracle, same correspondence; the recipe is part of the failure input and read back by --replay.
 //  (c) with hook H3 compiled in (COLOQUINTE_VERIF_DETAILED_OPLOG): the optimiser's primitive moves
 //      are logged and replayed on the model; the model's export must equal the exposed placement at
 //      every callback and on return.
@@ -40,15 +45,20 @@ struct E2E {
   std::string pfx;  // prefix of the counters: "e2e_" (Circuit::placeDetailed) or "dir_" (passes driven directly)
   explicit E2E(vh::Out &o, const std::string &prefix = "e2e_") : out(o), pfx(prefix) {}
 
-  void run(const std::string &id, const Circuit &input, const vd::Params &prm) {
-    run(id, input, prm, vd::runCase(input, prm));
+  void run(const std::string &id, const Circuit &input, const vd::Params &prm, const std::string &past = "") {
+    run(id, input, prm, vd::runCase(input, prm, 120, past), "", past);
   }
 
   // `r` = what vd::runCase(input, prm) returned (possibly computed by a worker process)
+  // `past`: the recipe phase 2 of `r` ran with ("" = fresh object); it is part of the failure input
   void run(const std::string &id, const Circuit &input, const vd::Params &prm, const vd::Run &r,
-           const std::string &inputPrefix = "") {
+           const std::string &inputPrefix = "", const std::string &past = "") {
     out.evaluations++;
-    std::string inp = inputPrefix + vd::caseString(input, prm);
+    std::string inp = inputPrefix + vd::caseString(input, prm) + past;
+    if (!r.pastNote.empty()) {  // harness self-check, expected 0
+      out.count(pfx + "past_restore_mismatch");
+      out.notes.push_back(id + ": " + r.pastNote);
+    }
     out.count(pfx + "legalize_" + r.legalizeStatus);
     out.count(prm.nonDefault ? pfx + "params_nondefault" : pfx + "params_effort");
     if (prm.p.detailed.reorderingMaxNbCells >= 2) out.count(pfx + "reordering_on");
@@ -202,7 +212,7 @@ static std::vector<Pass> genPasses(vh::Rng &g) {
 }
 
 static vd::Run directPasses(const Circuit &input, const vd::Params &prm, const std::vector<Pass> &passes,
-                            int timeoutSec = 120) {
+                            int timeoutSec = 120, const std::string &past = "") {
   vd::Run r;
   std::string txt, diag;
   // ---- phase 1: Circuit::legalize alone (as vd::runCase does): a crash in there is not ours
@@ -235,7 +245,7 @@ static vd::Run directPasses(const Circuit &input, const vd::Params &prm, const s
   std::string st = vh::isolated(
       [&](std::ostream &os) {
         vd::silenceStdout();
-        Circuit c = input;
+        Circuit c = vd::livedOrFresh(input, past, os);  // with `past`: an object that has lived (see vd::runCase)
         c.legalize(prm.p);
         std::vector<std::string> log;
 #ifdef COLOQUINTE_VERIF_DETAILED_OPLOG
@@ -299,6 +309,7 @@ static vd::Run directPasses(const Circuit &input, const vd::Params &prm, const s
   std::string line;
   while (std::getline(is, line)) {
     if (line == "hook") r.hasHook = true;
+    else if (line.rfind("pastnote ", 0) == 0) r.pastNote = line.substr(9);
     else if (line.rfind("status ", 0) == 0) r.detailedStatus = line.substr(7);
     else if (line.rfind("what ", 0) == 0) r.detailedWhat = line.substr(5);
     else if (line.rfind("cb ", 0) == 0) { vd::Snap s; vd::parseSnap(line.substr(3), s); r.callbacks.push_back(s); }
@@ -645,7 +656,10 @@ int main(int argc, char **argv) {
       "arguments (runSwaps, runInserts — never called by run() —, runShifts, runReordering, runSwapsOneRow, "
       "runInsertsOneRow, runSwapsTwoRows(Amplify), runInsertsTwoRows, runShiftsOnRows): check() and the exported "
       "placement after every pass, same oracle and same history replay as e<k>; non-trivial = a pass changed the "
-      "placement.  distinct by input text";
+      "placement.  One e<k> in three and one d<k> in four run phase 2 on an object with a past (e2e_past_cases / dir_past_cases: "
+      "built in a perturbed state, observers computeRows/computePlacementArea/hpwl/rowHeight/check called, restored through only the "
+      "needed setters — *_past_only_<class>, *_past_restored_by_<setter>, *_past_restored_by_setupRows_alone; half of them on rows "
+      "as setupRows produces them), same oracle and replay.  distinct by input text";
   const bool exhOnly = getenv("C02_EXH_ONLY") != nullptr;  // hidden development switch: only the stream x<k>, in any tier
   if (exhOnly || a.thorough())
     out.rule +=
@@ -685,7 +699,7 @@ int main(int argc, char **argv) {
       out.notes.push_back("could not parse case " + id);
       return;
     }
-    e2e.run(id, c, p);
+    e2e.run(id, c, p, vc::pastBlock(text));
   };
 
   if (!a.replay.empty()) {
@@ -696,7 +710,10 @@ int main(int argc, char **argv) {
     else if (parsePasses(text, passes)) {
       Circuit c(0);
       vd::Params p;
-      if (vd::parseCase(text, c, p)) dir.run("replay", c, p, directPasses(c, p, passes), passesString(passes));
+      if (vd::parseCase(text, c, p)) {
+        std::string past = vc::pastBlock(text);
+        dir.run("replay", c, p, directPasses(c, p, passes, 120, past), passesString(passes), past);
+      }
       else out.notes.push_back("could not parse case replay");
     } else runText("replay", text);
     out.finish();
@@ -724,12 +741,31 @@ int main(int argc, char **argv) {
   // sanitizers) runs in worker processes on all cores; the parent consumes the results in case order,
   // so ops.txt / impl.txt / oracle.txt / stats.json are those of a sequential run.
   const int jobs = a.only >= 0 ? 1 : vd::ParallelBlobs::defaultWorkers();
-  auto e2eCase = [&](long long k, Circuit &c, vd::Params &p) {
+  // the recipe of an object with a past, from a stream of its own (the circuits of the other cases are what they were);
+  // half of them on rows as setupRows produces them (still the C01 domain: uniform disjoint rows, only wider)
+  auto pastFor = [&](uint64_t stream, long long k, Circuit &c, vc::Past &past, bool &shaped) {
+    vh::Rng gp = vh::Rng::forCase(a.seed ^ stream, k);
+    shaped = gp.chance(1, 2) && vc::setupShapedRows(gp, c);
+    past = vc::genPast(gp, c);
+  };
+  struct PastOf { bool has = false, shaped = false; vc::Past recipe; std::string text; };
+  auto e2eCase = [&](long long k, Circuit &c, vd::Params &p, PastOf &po) {
     vh::Rng g = vh::Rng::forCase(a.seed, k);
     vc::GenOpts o = optsFor(g, k);
     c = vc::genCircuit(g, o);
     p = vd::genParams(g, k % 2 == 1);
     if (k % 8 == 5) vc::translate(c, g.range(-(1ll << 26), 1ll << 26), g.range(-(1ll << 26), 1ll << 26));  // far from the origin
+    po = PastOf();
+    if (k % 3 == 1) {
+      po.has = true;
+      pastFor(0x9a57e2eull, k, c, po.recipe, po.shaped);
+      po.text = po.recipe.text();
+    }
+  };
+  auto countPastOf = [&](const std::string &pfx, const PastOf &po) {
+    if (!po.has) return;
+    vc::countPast(out, pfx, po.recipe);
+    if (po.shaped) out.count(pfx + "past_rows_as_setupRows_produces");
   };
   auto primCase = [&](long long k, Circuit &c, vd::Params &p, vh::Rng &g) {
     g = vh::Rng::forCase(a.seed ^ 0x5bd1e995u, k);
@@ -743,27 +779,32 @@ int main(int argc, char **argv) {
     if (a.only < nE) {
       Circuit c(0);
       vd::Params p;
-      e2eCase(a.only, c, p);
-      e2e.run("e" + std::to_string(a.only), c, p);
+      PastOf po;
+      e2eCase(a.only, c, p, po);
+      countPastOf("e2e_", po);
+      e2e.run("e" + std::to_string(a.only), c, p, po.text);
     }
   } else {
     {
       vd::ParallelBlobs par(a.out + "/par-e-", nE, jobs, [&](long long k) {
         Circuit c(0);
         vd::Params p;
-        e2eCase(k, c, p);
-        return vd::serializeRun(vd::runCase(c, p));
+        PastOf po;
+        e2eCase(k, c, p, po);
+        return vd::serializeRun(vd::runCase(c, p, 120, po.text));
       });
       for (long long k = 0; k < nE; ++k) {
         Circuit c(0);
         vd::Params p;
-        e2eCase(k, c, p);
+        PastOf po;
+        e2eCase(k, c, p, po);
+        countPastOf("e2e_", po);
         std::string blob;
         vd::Run r;
-        if (par.get(k, blob) && vd::parseRun(blob, r)) e2e.run("e" + std::to_string(k), c, p, r);
+        if (par.get(k, blob) && vd::parseRun(blob, r)) e2e.run("e" + std::to_string(k), c, p, r, "", po.text);
         else {
           out.count("e2e_recomputed_in_parent");
-          e2e.run("e" + std::to_string(k), c, p);
+          e2e.run("e" + std::to_string(k), c, p, po.text);
         }
       }
     }
@@ -789,33 +830,42 @@ int main(int argc, char **argv) {
       }
     }
     {
-      auto dirCase = [&](long long k, Circuit &c, vd::Params &p, std::vector<Pass> &passes) {
+      auto dirCase = [&](long long k, Circuit &c, vd::Params &p, std::vector<Pass> &passes, PastOf &po) {
         vh::Rng g = vh::Rng::forCase(a.seed ^ 0xd12ec7u, k);
         vc::GenOpts o = optsFor(g, k);
         c = vc::genCircuit(g, o);
         p = vd::genParams(g, k % 2 == 1);
         passes = genPasses(g);
+        po = PastOf();
+        if (k % 4 == 2) {
+          po.has = true;
+          pastFor(0x9a57d12ull, k, c, po.recipe, po.shaped);
+          po.text = po.recipe.text();
+        }
       };
       vd::ParallelBlobs par(a.out + "/par-d-", nD, jobs, [&](long long k) {
         Circuit c(0);
         vd::Params p;
         std::vector<Pass> passes;
-        dirCase(k, c, p, passes);
-        return vd::serializeRun(directPasses(c, p, passes));
+        PastOf po;
+        dirCase(k, c, p, passes, po);
+        return vd::serializeRun(directPasses(c, p, passes, 120, po.text));
       });
       for (long long k = 0; k < nD; ++k) {
         Circuit c(0);
         vd::Params p;
         std::vector<Pass> passes;
-        dirCase(k, c, p, passes);
+        PastOf po;
+        dirCase(k, c, p, passes, po);
+        countPastOf("dir_", po);
         std::string blob;
         vd::Run r;
         if (!(par.get(k, blob) && vd::parseRun(blob, r))) {
           out.count("dir_recomputed_in_parent");
-          r = directPasses(c, p, passes);
+          r = directPasses(c, p, passes, 120, po.text);
         }
         for (auto &ps : passes) out.count(std::string("dir_pass_") + passName(ps.kind));
-        dir.run("d" + std::to_string(k), c, p, r, passesString(passes));
+        dir.run("d" + std::to_string(k), c, p, r, passesString(passes), po.text);
       }
     }
   }
